@@ -55,6 +55,17 @@ DETECTED = {
     'C18_b': ('C18', {'C18': '4/4'}, 'as built (odd number of rows)'),
     'C19_b': ('C19', {'C19': '7/7'}, 'as built'),
     'C20_b': ('C20', {'C20': '4/4'}, 'as built (keys beginning with a double quote)'),
+    # ---- round c (third change per property; the agent knew the summaries of a and b)
+    'C01_c': ('C01', {'C01': '5/5', 'C02': '25/17'}, 'as built (openmp part count rounded down: > 10 outcomes, not a multiple of 10)'),
+    'C02_c': ('C02', {'C02': '42/41', 'C01': '5/5'}, 'as built (threading work items train the wrong rows)'),
+    'C03_c': ('C03', {'C03': '4/9', 'C08': '2/4'}, 'MISSED as built by C03 (C08 chain stream caught it): C03 ran no Widrow-Hoff chains; stream wh_chain added (three flavours, several new names per later piece, every split)'),
+    'C04_c': ('C04', {'C04': '7/4', 'C01': '2/4'}, 'MISSED as built by C04 (C01 long files caught it): ndl.ndl itself was never run with >= 11 chunk files; stream ndl_many_chunks added'),
+    'C05_c': ('C05', {'C05': '10/6'}, 'as built (storage exhausted below the chunk header: every conversion job fails)'),
+    'C06_c': ('C06', {'C06': '12/12'}, 'as built (bad chunk not last in the list, binary_to_real kernel)'),
+    'C07_c': ('C07', {'C07': '2/2', 'C03': '20/12'}, 'MISSED as built: input forms were only compared from scratch; C07 forms now also continue from weights, C03 chain pieces take every input form. Side effect: found that ndl.ndl raises IOError on a zero-event file (model corrected: ndlCall)'),
+    'C08_c': ('C08', {'C08': '28/31', 'C14': '17/18'}, 'as built'),
+    'C09_c': ('C09', {'C09': '3/3', 'C15': '5/2'}, 'as built'),
+    'C10_c': ('C10', {'C10': '4/4 (extracted literal pattern also changes)', 'C15': '5/4'}, 'as built'),
 }
 
 
